@@ -33,6 +33,9 @@ WORKLOADS: dict[str, list[dict]] = {
     "slow-single": [L(0, ["slow", 0.3, 1])],
     "slow-pair": [L(0, ["slow", 0.3, 1]), L(0, ["slow", 0.2, 1])],
     "slow-child": [{**L(), "kids": [L(0, ["slow", 0.3, 1])], "call": "single"}],
+    # a long task next to one that works for a while and only then calls a sub-task: a stop finds both alive and
+    # the second one starts waiting while the stop is already in progress
+    "slow-and-late-parent": [L(0, ["slow", 0.4, 1]), {**L(), "pre_sleep": 0.15, "kids": [L()], "call": "single"}],
 }
 
 
